@@ -51,8 +51,9 @@ class Node:
         self.starter = None
 
     # ------------------------------------------------------------------ life cycle
-    def start(self, refused=False):
-        """Diameter.start() in an application thread; returns once that thread has finished"""
+    def start(self, refused=False, racing=False):
+        """Diameter.start() in an application thread; returns once that thread has finished (racing: the new state machine
+        thread runs while start() is still executing, in a random interleaving)"""
         self.generation += 1
         self.sock = vsched.FakeSock()
         self.sock.refused = refused
@@ -63,6 +64,14 @@ class Node:
             self.listen.backlog.append(self.sock)
             vsched.NEXT_SOCKS.append(self.listen)
         self.starter = self.s.spawn(f"app_start{self.generation}", self.d.start)
+        if racing:
+            n = 0
+            while not self.starter.done and n < 4000:
+                go = [t for t in self.s.threads if self.s.enabled(t) == "go"]
+                if not go:
+                    break
+                self.s.step(self.s.rng.choice(go))
+                n += 1
         self.run_others(until=lambda: self.starter.done, include_psm=False)
         return self.starter
 
